@@ -260,4 +260,74 @@ theorem readHead_ok {f R : Bytes} (L : Layout) (s : Rd) (st : ES) (first last : 
     refine ⟨_, e5, ?_⟩
     exact ⟨by simp [hpos], by simpa [Nat.add_assoc] using e6, rfl, rfl, rfl, rfl, rfl, by simp [hs], e3, e4⟩
 
+
+/-! ### end of file -/
+
+theorem readHeadBody_eof {f : Bytes} (s : Rd) (h : f.drop s.pos = []) :
+    readHeadBody f s = .ok { s with isEOF := true } := by
+  unfold readHeadBody readU16 rdBytes
+  rw [h]
+  simp
+
+structure EofPost (L : Layout) (s s' : Rd) : Prop where
+  eof : s'.isEOF = true
+  sol : s'.startOfLr = s.startOfLr
+  tm : TifMode' L s'.tif
+
+theorem readHead_eof {f : Bytes} (L : Layout) (s : Rd) (st : ES)
+    (hm : TifMode' L s.tif) (hl : TifLink L s.tif st) (hpos : s.pos = st.pos)
+    (h : f.drop s.pos = eofMarkers L st) (hbk : st.back < 4294967296) (hnx : st.pos + 24 < 4294967296) :
+    ∃ s', readHead f s = .ok s' ∧ EofPost L s s' := by
+  by_cases hon : L.tif = .off
+  · have hT : s.tif.hasTif = false := by rw [hm.1]; simp [hon]
+    have h0 : f.drop s.pos = [] := by rw [h]; simp [eofMarkers, tifMarker, hon]
+    have e1 : ∀ p, tifRead f s.tif p = .ok s.tif p none := by
+      intro p; unfold tifRead; simp [hT]
+    unfold readHead
+    cases hs : s.hasSuccessor
+    · simp only [Bool.false_eq_true, not_false_eq_true, if_true, e1]
+      rw [readHeadBody_eof _ (by simpa using h0)]
+      exact ⟨_, rfl, rfl, rfl, hm⟩
+    · simp only [not_true_eq_false, if_false, e1]
+      rw [readHeadBody_eof _ (by simpa using h0)]
+      exact ⟨_, rfl, rfl, rfl, hm⟩
+  · have hT : s.tif.hasTif = true := by rw [hm.1]; simp [hon]
+    rw [hpos] at h
+    unfold eofMarkers at h
+    have h1 := tifRead1_ok L s.tif st 1 (st.pos + 12) hm hon hl h (by omega) hbk (by omega)
+    have h2 := drop_add_of_drop h
+    rw [tifMarker_len12 L hon] at h2
+    -- the duplicate marker
+    have hm1 : TifMode' L { s.tif with tifType := 1, tifBack := st.back, tifNext := st.pos + 12,
+                                       previousTell := some st.pos } := ⟨hm.1, hm.2⟩
+    have hl1 : TifLink L { s.tif with tifType := 1, tifBack := st.back, tifNext := st.pos + 12,
+                                      previousTell := some st.pos } ⟨st.pos + 12, st.pos, 0⟩ := by
+      intro _
+      exact ⟨by intro x hx; simp only [Option.some.injEq] at hx; exact hx.symm, by intro _; rfl⟩
+    have h2' : f.drop (⟨st.pos + 12, st.pos, 0⟩ : ES).pos
+        = tifMarker L.tif 1 (⟨st.pos + 12, st.pos, 0⟩ : ES).back (st.pos + 24) ++ [] := by
+      simpa using h2
+    have h3 := tifRead1_ok L _ ⟨st.pos + 12, st.pos, 0⟩ 1 (st.pos + 24) hm1 hon hl1 h2' (by omega)
+      (by simp only []; omega) (by omega)
+    have h4 := drop_add_of_drop h2'
+    rw [tifMarker_len12 L hon] at h4
+    simp only [] at h3 h4
+    have e1 : ∃ t2, tifRead f s.tif st.pos = .ok t2 (st.pos + 12 + 12) (some st.pos) ∧ TifMode' L t2 := by
+      have e : tifRead f s.tif st.pos = .ok (⟨s.tif.hasTif, s.tif.isReversed, 1, st.pos, st.pos + 24, some (st.pos + 12)⟩ : Tif)
+          (st.pos + 12 + 12) (some st.pos) := by
+        unfold tifRead
+        rw [if_pos hT, h1]
+        simp only [if_true]
+        rw [h3]
+      exact ⟨_, e, ⟨hm.1, hm.2⟩⟩
+    obtain ⟨t2, e1, e2⟩ := e1
+    unfold readHead
+    cases hs : s.hasSuccessor
+    · simp only [Bool.false_eq_true, not_false_eq_true, if_true, hpos, e1]
+      rw [readHeadBody_eof _ (by simpa using h4)]
+      exact ⟨_, rfl, rfl, rfl, e2⟩
+    · simp only [not_true_eq_false, if_false, hpos, e1]
+      rw [readHeadBody_eof _ (by simpa using h4)]
+      exact ⟨_, rfl, rfl, rfl, e2⟩
+
 end TD.C05
